@@ -239,15 +239,19 @@ Section CommitRounds.
   Notation hon := (honestb P).
   Notation cfg := (pcfg P).
   Variables (V n : Z) (j : justification) (mv : view).
+  Variables (po : option Z) (hh : Z) (oh : option Z).
   Hypothesis Hjv : justification_view (E := unit) true j = Ok mv.
   Hypothesis Hmv : vnum mv = V.
   Hypothesis Hjver : justification_verify (p_g P) (p_e P) (p_C P) j = Ok tt.
-  Hypothesis Himp : get_implied_block (E := unit) true (p_C P) (p_first P) j = Ok (n, None).
+  Hypothesis Himp : get_implied_block (E := unit) true (p_C P) (p_first P) j = Ok (n, oh).
+  Hypothesis Hkind :
+    (oh = None /\ po = Some hh /\ p_pok P n hh = true /\ p_psize P hh <= p_maxpay P) \/
+    (oh = Some hh /\ po = None).
   Hypothesis Hfn : p_first P <= n.
   Hypothesis HV : 0 < V.
   Notation L := (cleader (cfg 0) V).
-  Notation cstar := {| cview := mv; cprop := {| hnum := n; hpay := pay n |} |}.
-  Notation mstar := {| m_key := L; m_sig_ok := true; m_msg := MProposal (Some (pay n)) j |}.
+  Notation cstar := {| cview := mv; cprop := {| hnum := n; hpay := hh |} |}.
+  Notation mstar := {| m_key := L; m_sig_ok := true; m_msg := MProposal po j |}.
 
   Variable s : gstate.
   Hypothesis Hr : preach P s.
@@ -259,7 +263,7 @@ Section CommitRounds.
   Hypothesis Hal : forall k, hon k = true ->
     up s k /\ hview s k = V /\ r_phase (n_live (g_node s k)) = Prepare /\ n <= r_store_next (n_live (g_node s k)).
   Hypothesis Hstar : In mstar (g_soup s).
-  Hypothesis Huq : uniq_prop P pay V n j (g_soup s).
+  Hypothesis Huq : uniq_prop P V j po (g_soup s).
 
   Let Hfirst : 0 <= p_first P := proj2 (proj2 Henv).
   Notation Sg := (g_soup s).
@@ -294,16 +298,22 @@ Section CommitRounds.
       pose proof (no_commit_msg_at P HP s (m_key m) c V Hr (fun k Hk => or_intror (s_pos k Hk)) Hh Hin'). lia.
   Qed.
 
+  (* the nodes that have the payload of the proposed block cached at the start *)
+  Definition ck (k : Z) : Prop := cached n hh (n_live (g_node s k)).
+  Definition CVK (k : Z) (st : rstate) : Prop := CV hon Sg st /\ (ck k -> cached n hh st).
+  (* ... or cache it when they vote for a new block *)
+  Definition ck' (k : Z) : Prop := ck k \/ oh = None.
+
   Definition NPA (i : nat) (k : Z) (soup : list sgmsg) (nd : node) : Prop :=
-    n_alive nd = true /\ nodeA P pay V n mv soup k (n_live nd) /\ CV hon Sg (n_live nd) /\
-    (forall i0, (i0 < i)%nat -> nth_error Sg i0 = Some mstar -> voted pay n mv soup k (n_live nd)).
+    n_alive nd = true /\ nodeA P V n mv hh oh soup k (n_live nd) /\ CVK k (n_live nd) /\
+    (forall i0, (i0 < i)%nat -> nth_error Sg i0 = Some mstar -> voted n mv hh oh soup k (n_live nd)).
 
   Lemma voted_mono soup soup' k st : (forall m, In m soup -> In m soup') ->
-    voted pay n mv soup k st -> voted pay n mv soup' k st.
+    voted n mv hh oh soup k st -> voted n mv hh oh soup' k st.
   Proof. intros Hi (A & B & C & D). repeat split; auto. Qed.
 
   Lemma nodeA_mono soup soup' k st : (forall m, In m soup -> In m soup') ->
-    nodeA P pay V n mv soup k st -> nodeA P pay V n mv soup' k st.
+    nodeA P V n mv hh oh soup k st -> nodeA P V n mv hh oh soup' k st.
   Proof.
     intros Hi (A & B & C & D). split; [exact A|]. split; [exact B|]. split; [exact C|].
     destruct D as [D|D]; [left; exact D|right; eapply voted_mono; eassumption].
@@ -318,7 +328,7 @@ Section CommitRounds.
   Lemma NPA_start k : hon k = true -> lifted (NPA 0%nat) k s.
   Proof.
     intros Hk. destruct (Hal k Hk) as (Hu & Hv & Hp & Hn). unfold lifted, NPA.
-    split; [exact Hu|]. split; [|split; [apply preach_CV; assumption|intros i0 Hlt; lia]].
+    split; [exact Hu|]. split; [|split; [split; [apply preach_CV; assumption|intros H; exact H]|intros i0 Hlt; lia]].
     split; [exact Hv|]. split; [exact Hn|]. split; [|left; exact Hp].
     destruct (ProtocolRefinesInv.preach_inv P HP s Hr) as [a G].
     exact (ProtocolRefinesInv.ni_first _ _ _ _ _ (ProtocolRefinesInv.gi_node _ _ _ G k Hk)).
@@ -337,15 +347,16 @@ Section CommitRounds.
     set (t' := absorb t k (node_input (cfg k) (g_node t k) (IMsg m))) in *.
     assert (Hvle : r_view s' <= V).
     { rewrite <- Hl'. apply (view_le_V P V Sg Hcq_s Htq_s t' k ltac:(lia) (proj1 HN') Hk Ha'). }
-    destruct (stepA P pay Henv V n j mv Hjv Hmv Hjver Himp Hfn Sg Hcq_s Htq_s Huq k _ m (g_soup t) s' es r
-                Hinv Es Hs Hvle Hin Hkm A2) as (B1 & B2 & B3 & B4).
+    destruct (stepA P V n j mv po hh oh Hjv Hmv Hjver Himp Hkind Hfn Sg Hcq_s Htq_s Huq k _ m (g_soup t) s' es r
+                Hinv Es Hs Hvle Hin Hkm A2) as (B1 & B2 & B3 & B4 & B5).
     split; [split; [exact HN'|]|].
     - intros m0 c Hin0 Hsg Hh Em HVc. rewrite Hsoup in Hin0. apply in_app_or in Hin0. destruct Hin0 as [Hin0|Hin0].
       + exact (HG2 m0 c Hin0 Hsg Hh Em HVc).
       + apply ProtocolRefinesInv.in_sends_of in Hin0. destruct Hin0 as (x & Hx & ->). cbn [m_msg] in Em. subst x.
         specialize (B3 _ Hx). inversion B3. reflexivity.
     - unfold lifted, NPA. rewrite Hsoup, Hl'. split; [exact Ha'|]. split; [exact B1|]. split.
-      + pose proof (CV_step hon Sg (cfg k) _ (IMsg m) Hinv A3) as Hcv. rewrite Es in Hcv. apply Hcv.
+      + destruct A3 as [A3 A3c]. split; [|intros Hc; apply B5, A3c, Hc].
+        pose proof (CV_step hon Sg (cfg k) _ (IMsg m) Hinv A3) as Hcv. rewrite Es in Hcv. apply Hcv.
         intros m' Em. inversion Em; subst m'. exact Hin.
       + intros i0 Hlt Hn0. destruct (Nat.eq_dec i0 i) as [->|Hne].
         * apply B2. rewrite Hns in Hn0. inversion Hn0. reflexivity.
@@ -354,8 +365,8 @@ Section CommitRounds.
 
   (* after the deliveries everybody has voted *)
   Definition NPV (k : Z) (soup : list sgmsg) (nd : node) : Prop :=
-    n_alive nd = true /\ nodeA P pay V n mv soup k (n_live nd) /\ CV hon Sg (n_live nd) /\
-    voted pay n mv soup k (n_live nd).
+    n_alive nd = true /\ nodeA P V n mv hh oh soup k (n_live nd) /\ CVK k (n_live nd) /\
+    voted n mv hh oh soup k (n_live nd).
   Lemma NPV_mono : mono NPV.
   Proof.
     intros k soup soup' nd Hi (A & B & C & D). split; [exact A|]. split; [eapply nodeA_mono; eassumption|].
@@ -424,9 +435,9 @@ Section CommitRounds.
     split; [split; [exact HN'|]|].
     - intros m0 c Hin0. rewrite Hsoup in Hin0. exact (HG2 m0 c Hin0).
     - unfold lifted, NPV. rewrite Hsoup, Hl'. split; [exact Ha'|].
-      split; [exact (nodeA_frame P pay V n mv _ _ k _ _ F (fun m H => H) B)|].
-      split; [|exact (voted_frame pay n mv _ _ k _ _ F (fun m H => H) D)].
-      intros h0 v Hh Hg. exact (C h0 v Hh Hg).
+      split; [exact (nodeA_frame P V n mv hh oh _ _ k _ _ F (fun m H => H) B)|].
+      split; [|exact (voted_frame n mv hh oh _ _ k _ _ F (fun m H => H) D)].
+      destruct C as [C Cc]. split; [intros h0 v Hh Hg; exact (C h0 v Hh Hg)|exact Cc].
   Qed.
 
   Lemma sync_nodeA f fuel : forall t k, hon k = true -> GAinv t -> lifted NPV k t ->
@@ -463,8 +474,8 @@ Section CommitRounds.
 
   Definition NPT (k : Z) (soup : list sgmsg) (nd : node) : Prop :=
     n_alive nd = true /\ r_view (n_live nd) = V /\ r_phase (n_live nd) = PTimeout /\
-    cache_has (r_cache (n_live nd)) n (pay n) = true /\ n <= r_store_next (n_live nd) /\
-    CV hon Sg (n_live nd) /\ In (votemsg pay n mv k) soup.
+    (ck' k -> cached n hh (n_live nd)) /\ n <= r_store_next (n_live nd) /\
+    CV hon Sg (n_live nd) /\ In (votemsg n mv hh k) soup.
   Lemma NPT_mono : mono NPT.
   Proof. intros k soup soup' nd Hi (A&B&C&D&E&F&G). repeat split; auto. Qed.
 
@@ -486,8 +497,9 @@ Section CommitRounds.
       + exact (HG2 m0 c Hin0 Hsg Hh Em HVc).
       + cbn in Hin0. destruct Hin0 as [<-|[<-|[]]]; discriminate Em.
     - unfold lifted, NPT. rewrite Hsoup, Hl'. cbn [set_phase r_view r_phase r_cache r_store_next].
-      split; [exact Ha'|]. split; [exact B1|]. split; [reflexivity|]. split; [exact D3|]. split; [exact B2|].
-      split; [exact C|]. apply in_or_app. left. exact D4.
+      split; [exact Ha'|]. split; [exact B1|]. split; [reflexivity|].
+      split; [intros [Hc|Hc]; [exact (proj2 C Hc)|exact (D3 Hc)]|]. split; [exact B2|].
+      split; [exact (proj1 C)|]. apply in_or_app. left. exact D4.
   Qed.
 
   Definition sA := timers_all P s tA.
@@ -529,7 +541,7 @@ Section CommitRounds.
     split; [exact E1|rewrite E2; discriminate].
   Qed.
 
-  Lemma votes_in k : hon k = true -> In (votemsg pay n mv k) Sg2.
+  Lemma votes_in k : hon k = true -> In (votemsg n mv hh k) Sg2.
   Proof. intros Hk. destruct after_sync as [_ HN]. destruct (HN k Hk) as (_ & _ & _ & (_ & _ & _ & D4)). exact D4. Qed.
 
   Lemma fold_local_soup (f : gstate -> Z -> gstate) : local f -> forall ks t, exists l, g_soup (fold_left f ks t) = g_soup t ++ l.
@@ -584,14 +596,16 @@ Section CommitRounds.
      certificate for the committed vote *)
   Definition NX (k : Z) (soup : list sgmsg) (nd : node) : Prop :=
     n_alive nd = true /\ r_view (n_live nd) = V + 1 /\ r_phase (n_live nd) = Prepare /\
-    n < r_store_next (n_live nd) /\ exists q, n_notify nd = Some (JCommit q) /\ qmsg q = cstar.
+    (n <= r_store_next (n_live nd) /\ (ck' k -> n < r_store_next (n_live nd))) /\
+    exists q, n_notify nd = Some (JCommit q) /\ qmsg q = cstar.
   Lemma NX_mono : mono NX.
   Proof. intros k soup soup' nd _ H. exact H. Qed.
 
   Definition NPB (i : nat) (k : Z) (soup : list sgmsg) (nd : node) : Prop :=
     NX k soup nd \/
-    (n_alive nd = true /\ (i <= length Sg2)%nat /\ coll P pay V n mv k (n_live nd) /\
-     forall h i0, hon h = true -> (i0 < i)%nat -> nth_error Sg2 i0 = Some (votemsg pay n mv h) ->
+    (n_alive nd = true /\ (i <= length Sg2)%nat /\
+     (coll P V n mv hh k (n_live nd) /\ (ck' k -> cached n hh (n_live nd))) /\
+     forall h i0, hon h = true -> (i0 < i)%nat -> nth_error Sg2 i0 = Some (votemsg n mv hh h) ->
        hasbit (cfg k) (n_live nd) h cstar).
   Lemma NPB_mono i : mono (NPB i).
   Proof. intros k soup soup' nd _ H. exact H. Qed.
@@ -644,7 +658,8 @@ Section CommitRounds.
       as ((F1&F2&F3&F4&F5&F6) & Hoq).
     split; [exact HN'|]. split.
     - unfold lifted, NX. rewrite Hl', Hnot, (notify_upd_queue _ es Hoq).
-      split; [exact Ha'|]. split; [congruence|]. split; [congruence|]. split; [lia|]. exists q. auto.
+      split; [exact Ha'|]. split; [congruence|]. split; [congruence|].
+      split; [destruct D as [D1 D2]; split; [lia|intros H; specialize (D2 H); lia]|]. exists q. auto.
     - rewrite Hsoup, (sends_of_quiet k es (only_queue_no_sends es Hoq)). apply app_nil_r.
   Qed.
 
@@ -688,7 +703,7 @@ Section CommitRounds.
     set (t' := absorb t k (node_input (cfg k) (g_node t k) (IMsg m))) in *.
     assert (HR2' : RInv P Sg2 t').
     { apply (RInv_prim P Sg2 sA t t' HR2). apply RPinput; [exact Hlive|]. exists i. split; [lia|exact Hnt]. }
-    destruct A2 as [HX|(_ & Hile & HC & Hbits)].
+    destruct A2 as [HX|(_ & Hile & [HC HCc] & Hbits)].
     - destruct (NX_input t k m HN Hk Hin Hri HX) as (HN' & HX' & Hsoup). fold t' in HN', HX', Hsoup.
       split; [split; [split; assumption|]|left; exact HX'].
       intros m0 p' j' mv' Hin0. rewrite Hsoup in Hin0. exact (HNP m0 p' j' mv' Hin0).
@@ -698,8 +713,8 @@ Section CommitRounds.
       destruct (node_certs_good P Sg2 t' k HR2' Hk Ha') as [Hgq Hgt]. rewrite Hl' in Hgq, Hgt.
       assert (Hptq : forall tq, r_high_tqc s' = Some tq -> vnum (tqview tq) < V).
       { intros tq Etq. destruct (Hgt tq Etq) as [Hv0 Hk0]. exact (HtqB tq Hv0 Hk0). }
-      destruct (stepB P HP pay V n j mv Hjv Hmv Hjver Sg Hcq_s Htq_s k _ m s' es r Hinv Es Hs Hkm)
-        as [(E1 & E2 & E3 & q & j1 & qs & E4 & E5 & E6 & E7 & E8)|(HC' & Hoq & Hpres & Hown)].
+      destruct (stepB P HP V n j mv hh Hjv Hmv Hjver Sg Hcq_s Htq_s k _ m s' es r Hinv Es Hs Hkm)
+        as [(E1 & E2 & [E3a E3b] & q & j1 & qs & E4 & E5 & E6 & E7 & E8)|(HC' & Hoq & Hpres & Hown & Hcache)].
       + intros c Em Hsg Hh HVc. exact (sA_GA2 m c Hin Hsg Hh Em HVc).
       + exact Hptq.
       + intros q Eq HVq. exact (cstar_from_cert q (Hgq q Eq) HVq).
@@ -719,11 +734,13 @@ Section CommitRounds.
           -- unfold only_queue in E7. rewrite Forall_forall in E7. destruct (E7 _ Hx).
           -- inversion Hx. eauto.
         * left. unfold lifted, NX. rewrite Hl', Hnot, E8, (notify_upd_enter _ qs _ _ _ E7).
-          split; [exact Ha'|]. split; [exact E1|]. split; [exact E2|]. split; [exact E3|]. exists q. auto.
+          split; [exact Ha'|]. split; [exact E1|]. split; [exact E2|].
+          split; [split; [exact E3a|intros Hc; apply E3b, HCc, Hc]|]. exists q. auto.
       + split; [split; [split; assumption|]|].
         * apply (NoProp_sends t k es HNP); [|exact Hsoup].
           intros x Hx. unfold only_queue in Hoq. rewrite Forall_forall in Hoq. destruct (Hoq _ Hx).
-        * right. unfold lifted. rewrite Hl'. split; [exact Ha'|]. split; [lia|]. split; [exact HC'|].
+        * right. unfold lifted. rewrite Hl'. split; [exact Ha'|]. split; [lia|].
+          split; [split; [exact HC'|intros Hc; unfold cached; rewrite Hcache; apply HCc, Hc]|].
           intros h i0 Hh Hlt Hn0. destruct (Nat.eq_dec i0 i) as [->|Hne].
           -- apply (Hown h Hh). rewrite Hns2 in Hn0. inversion Hn0. reflexivity.
           -- apply (Hpres h Hh). apply (Hbits h i0 Hh); [lia|exact Hn0].
@@ -737,8 +754,8 @@ Section CommitRounds.
   Proof.
     intros Hk. destruct after_timers as [_ HN]. destruct (HN k Hk) as (A & B & C & D & E & F & G).
     unfold lifted, NPB. right. split; [exact A|]. split; [lia|]. split; [|intros h i0 _ Hlt; lia].
-    pose proof (fi_certs _ _ _ sA_FI k Hk) as K.
-    split; [exact B|]. split; [rewrite C; discriminate|]. split; [exact D|]. split; [exact E|]. split; [|split].
+    pose proof (fi_certs _ _ _ sA_FI k Hk) as K. split; [|exact D].
+    split; [exact B|]. split; [rewrite C; discriminate|]. split; [exact I|]. split; [exact E|]. split; [|split].
     - intros q Hq. apply Hcq_s. exact (co_cqc _ _ _ _ K q Hq).
     - intros h Hh. left. unfold RC.fresh.
       destruct (zmap_get (r_commit_views (n_live (g_node sA k))) h) as [v'|] eqn:Ev; [|reflexivity].
@@ -767,9 +784,9 @@ Section CommitRounds.
     destruct (deliver_range_inv P HP GB1' NPB 0 (length Sg2) NPB_mono deliverB1 (length Sg2) 0%nat sA
                 (le_n _) eq_refl (conj (conj sA_NSI sA_RInv2) NoProp_sA) NPB_start) as [[[HN HR2] HNP] HB1].
     fold tB1 in HN, HR2, HNP, HB1. split; [split; assumption|].
-    intros k Hk. destruct (HB1 k Hk) as [HX|(A & _ & HC & Hbits)]; [exact HX|]. exfalso.
+    intros k Hk. destruct (HB1 k Hk) as [HX|(A & _ & [HC _] & Hbits)]; [exact HX|]. exfalso.
     destruct (preach_LI P tB1 (proj1 HR2) k) as [_ HI]. destruct (HI A) as (Hci & _).
-    apply (coll_full_contra P HP pay V n mv Hmv Sg Hcq_s k _ Hci HC).
+    apply (coll_full_contra P HP V n mv hh Hmv Sg Hcq_s k _ Hci HC).
     - exists k. exact Hk.
     - intros h Hh. pose proof (votes_in h Hh) as Hin. apply In_nth_error in Hin. destruct Hin as [i0 Hi0].
       apply (Hbits h i0 Hh); [|exact Hi0]. apply nth_error_Some. congruence.
@@ -961,6 +978,146 @@ Section CommitRounds.
   Lemma two_rounds : sync_rounds P pay fetch 2 s = sB.
   Proof. cbn [sync_rounds]. rewrite sA_round. reflexivity. Qed.
 
+  (* ---------- block sync of round B: the nodes without the payload fetch the block ---------- *)
+  Hypothesis Hwit : oh = None \/ exists k0, hon k0 = true /\ ck k0.
+  Hypothesis Hfetch : oh <> None -> fetch_ok_at P fetch (sync_point P pay (sync_round P pay fetch s)).
+
+  Lemma tB3_sp : sync_point P pay (sync_round P pay fetch s) = tB3.
+  Proof.
+    rewrite sA_round. unfold sync_point, tB3, tB2.
+    assert (Hrev : revive_all P sA = sA) by (apply revive_all_id; intros k Hk; apply sA_up; exact Hk).
+    rewrite Hrev. reflexivity.
+  Qed.
+
+  Lemma stored_in_qlog t k : preach P t -> hon k = true -> n < r_store_next (n_live (g_node t k)) ->
+    exists h', In (k, n, h') (g_qlog t).
+  Proof.
+    intros Hrt Hk Hgt.
+    pose proof (ProtocolRefinesMain.store_next_is_queue_end P HP t k Hrt Hk) as Hsn.
+    set (i := Z.to_nat (n - p_first P)).
+    assert (Hi : (i < length (ProtocolRefinesMain.queued_numbers t k))%nat) by (unfold i; lia).
+    pose proof (ProtocolRefinesMain.append_only P HP t k i Hrt Hk Hi) as Hnth.
+    assert (Hin : In (nth i (ProtocolRefinesMain.queued_numbers t k) 0) (ProtocolRefinesMain.queued_numbers t k))
+      by (apply nth_In; exact Hi).
+    unfold ProtocolRefinesMain.queued_numbers in Hin at 2. apply in_map_iff in Hin. destruct Hin as ([[k' m] h] & Em & Hf).
+    apply filter_In in Hf. destruct Hf as [Hq Hkk]. cbn [fst snd] in Em, Hkk. apply Z.eqb_eq in Hkk. subst k'.
+    exists h. replace n with m; [exact Hq|]. rewrite Em, Hnth. unfold i. lia.
+  Qed.
+
+  Definition NXQ (k : Z) (soup : list sgmsg) (nd : node) : Prop := NXP k soup nd /\ n < r_store_next (n_live nd).
+  Lemma NXQ_mono : mono NXQ.
+  Proof. intros k soup soup' nd Hi [A B]. split; [eapply NXP_mono; eassumption|exact B]. Qed.
+
+  Definition GB4 (t : gstate) : Prop :=
+    GB3 t /\ g_soup t = g_soup tB3 /\ exists l, g_qlog t = g_qlog tB3 ++ l.
+
+  Lemma sync1B4 f t k : hon k = true -> GB4 t -> lifted NXP k t ->
+    GB4 (sync1 P f t k) /\ lifted NXP k (sync1 P f t k) /\
+    r_store_next (n_live (g_node t k)) <= r_store_next (n_live (g_node (sync1 P f t k) k)).
+  Proof.
+    intros Hk (HG & Hsoup0 & (l & Hq0)) HXP. destruct (sync1B f t k Hk HG HXP) as [HG' HXP'].
+    destruct (sync1_good P f t k) as [E|(q0 & _ & _ & _ & _ & _ & E)].
+    - rewrite E in *. split; [split; [exact HG'|split; [exact Hsoup0|eauto]]|split; [exact HXP'|lia]].
+    - rewrite E in *.
+      destruct (node_input_sync (cfg k) (g_node t k) (r_store_next (n_live (g_node t k))) (hpay (cprop (qmsg q0))))
+        as (s' & Hn & Hs' & Hse).
+      split; [split; [exact HG'|split]|split; [exact HXP'|]].
+      + cbn [absorb g_soup]. rewrite (sends_of_key 0 k _ Hse), app_nil_r. exact Hsoup0.
+      + cbn [absorb g_qlog]. rewrite Hq0, <- app_assoc. eauto.
+      + cbn [absorb g_node]. unfold set_node. rewrite Z.eqb_refl, Hn. cbn [n_live].
+        destruct Hs' as [-> | ->]; cbn [set_store_next r_store_next]; lia.
+  Qed.
+
+  (* the first fetch stores block n at a node that does not have it *)
+  Lemma sync1_fires t k q : hon k = true -> GB4 t -> lifted NXP k t ->
+    r_store_next (n_live (g_node t k)) = n ->
+    fetch tB3 n = Some q -> cqc_verify (p_g P) (p_e P) (p_C P) q = Ok tt -> cqc_knownb P (g_soup tB3) q = true ->
+    hnum (cprop (qmsg q)) = n -> (exists k', In (k', n, hpay (cprop (qmsg q))) (g_qlog tB3)) ->
+    n < r_store_next (n_live (g_node (sync1 P (fetch tB3) t k) k)).
+  Proof.
+    intros Hk (HG & Hsoup0 & (l & Hq0)) HXP Hsn Hf Hv Hkn Hn (k' & Hin).
+    assert (A : n_alive (g_node t k) = true) by apply HXP.
+    unfold sync1, live_node. rewrite Hk, A. cbn [andb]. cbv zeta. rewrite Hsn, Hf, Hn, Z.eqb_refl, Hv, Hsoup0, Hkn.
+    assert (Hsq : someone_queued t n (hpay (cprop (qmsg q))) = true).
+    { unfold someone_queued. apply existsb_exists. exists (k', n, hpay (cprop (qmsg q))). split.
+      - rewrite Hq0. apply in_or_app. left. exact Hin.
+      - cbn [fst snd]. rewrite !Z.eqb_refl. reflexivity. }
+    rewrite Hsq. cbn [andb is_ok].
+    cbn [absorb g_node]. unfold set_node. rewrite Z.eqb_refl, (node_input_live P k), rstep_t_sync_eq, Hsn, Z.eqb_refl.
+    unfold st_of. cbn. lia.
+  Qed.
+
+  Lemma sync_nodeB4 f fuel : forall t k, hon k = true -> GB4 t -> lifted NXP k t ->
+    GB4 (sync_node P f fuel t k) /\ lifted NXP k (sync_node P f fuel t k) /\
+    r_store_next (n_live (g_node t k)) <= r_store_next (n_live (g_node (sync_node P f fuel t k) k)).
+  Proof.
+    induction fuel as [|fu IH]; intros t k Hk HG HXP; cbn [sync_node]; [split; [exact HG|split; [exact HXP|lia]]|].
+    destruct (sync1B4 f t k Hk HG HXP) as (HG1 & HX1 & Hm1).
+    destruct (IH _ k Hk HG1 HX1) as (HG2 & HX2 & Hm2). split; [exact HG2|]. split; [exact HX2|lia].
+  Qed.
+
+  (* what the fetch oracle returns for block n at the sync point, when some honest node stored it *)
+  Lemma fetch_facts : oh <> None -> (exists k0, hon k0 = true /\ n < r_store_next (n_live (g_node tB3 k0))) ->
+    preach P tB3 ->
+    exists q, fetch tB3 n = Some q /\ cqc_verify (p_g P) (p_e P) (p_C P) q = Ok tt /\
+      cqc_knownb P (g_soup tB3) q = true /\ hnum (cprop (qmsg q)) = n /\
+      (exists k', In (k', n, hpay (cprop (qmsg q))) (g_qlog tB3)) /\ (1 <= length (g_qlog tB3))%nat.
+  Proof.
+    intros Hoh (k0 & Hk0 & Hgt) Hrt. destruct (stored_in_qlog tB3 k0 Hrt Hk0 Hgt) as [h' Hin].
+    pose proof (Hfetch Hoh) as Hfo. rewrite tB3_sp in Hfo.
+    destruct (Hfo k0 n h' Hk0 Hin) as (q & Hf & Hv & Hkn & Hn & Hh).
+    exists q. repeat split; auto.
+    - exists k0. rewrite Hh. exact Hin.
+    - destruct (g_qlog tB3); [destruct Hin|cbn; lia].
+  Qed.
+
+  Lemma tB3_GB4 : GB4 tB3.
+  Proof. destruct after_proposeB as [HG _]. split; [exact HG|]. split; [reflexivity|exists []; symmetry; apply app_nil_r]. Qed.
+
+  Lemma tB3_reach : preach P tB3.
+  Proof. destruct after_proposeB as [[((H & _) & _) _] _]. exact H. Qed.
+
+  Lemma after_syncB4 : GB3 tB4 /\ (forall k, hon k = true -> lifted NXQ k tB4).
+  Proof.
+    destruct after_proposeB as [_ HN]. unfold tB4, sync_all.
+    assert (Hfa : oh = None \/ exists q, fetch tB3 n = Some q /\ cqc_verify (p_g P) (p_e P) (p_C P) q = Ok tt /\
+              cqc_knownb P (g_soup tB3) q = true /\ hnum (cprop (qmsg q)) = n /\
+              (exists k', In (k', n, hpay (cprop (qmsg q))) (g_qlog tB3)) /\ (1 <= length (g_qlog tB3))%nat).
+    { destruct Hwit as [E|(k0 & Hk0 & Hc0)]; [left; exact E|].
+      assert (Hd : oh = None \/ oh <> None) by (clear; destruct oh; [right; discriminate|left; reflexivity]).
+      destruct Hd as [E|Hne]; [left; exact E|right].
+      apply fetch_facts; [exact Hne| |exact tB3_reach].
+      exists k0. split; [exact Hk0|]. destruct (HN k0 Hk0) as [(_ & _ & _ & [_ D2] & _) _]. apply D2. left. exact Hc0. }
+    destruct (keys_phase P HP (sync_node P (fetch tB3) (length (g_qlog tB3))) GB4 NXP NXQ (sync_node_local P _ _) NXP_mono NXQ_mono)
+      with (t := tB3) as [HG HQ].
+    - intros t k Hk HG HXP. destruct (sync_nodeB4 (fetch tB3) (length (g_qlog tB3)) t k Hk HG HXP) as (HG' & HX' & Hm).
+      split; [exact HG'|]. split; [exact HX'|].
+      pose proof HXP as [(_ & _ & _ & [D1 D2] & _) _].
+      destruct Hfa as [E|(q & Hf & Hv & Hkn & Hn & Hin & Hlen)]; [specialize (D2 (or_intror E)); lia|].
+      destruct (Z.eq_dec (r_store_next (n_live (g_node t k))) n) as [En|Hne]; [|lia].
+      destruct (length (g_qlog tB3)) as [|fu] eqn:El; [lia|]. cbn [sync_node] in *.
+      pose proof (sync1_fires t k q Hk HG HXP En Hf Hv Hkn Hn Hin) as Hfire.
+      destruct (sync1B4 (fetch tB3) t k Hk HG HXP) as (HG1 & HX1 & _).
+      destruct (sync_nodeB4 (fetch tB3) fu _ k Hk HG1 HX1) as (_ & _ & Hm2). lia.
+    - exact tB3_GB4.
+    - exact HN.
+    - split; [apply HG|exact HQ].
+  Qed.
+
+  Lemma timerB4 t k : hon k = true -> GB3 t -> lifted NXQ k t ->
+    GB3 (timer1 P sA t k) /\ lifted NXQ k (timer1 P sA t k).
+  Proof.
+    intros Hk HG [HXP HQ]. pose proof HXP as [(_ & B & _) _].
+    unfold timer1. rewrite B, (sA_view k Hk).
+    assert (E : (V + 1 =? V) = false) by (apply Z.eqb_neq; lia). rewrite E, andb_false_r. split; [exact HG|split; assumption].
+  Qed.
+
+  Lemma after_roundB4 : GB3 sB /\ (forall k, hon k = true -> lifted NXQ k sB).
+  Proof.
+    destruct after_syncB4 as [HG HN]. rewrite sB_eq. unfold timers_all.
+    apply (keys_phase P HP (timer1 P sA) GB3 NXQ NXQ (timer1_local P sA) NXQ_mono NXQ_mono timerB4 _ HG HN).
+  Qed.
+
   (* ---------- the result ---------- *)
   Theorem commit_two_rounds_post :
     let s2 := sync_rounds P pay fetch 2 s in
@@ -971,13 +1128,18 @@ Section CommitRounds.
     (hon L' = true ->
        exists q, qmsg q = cstar /\ justification_verify (p_g P) (p_e P) (p_C P) (JCommit q) = Ok tt /\
          get_implied_block (E := unit) true (p_C P) (p_first P) (JCommit q) = Ok (n + 1, None) /\
-         In (propmsg q) (g_soup s2) /\ uniq_prop P pay (V + 1) (n + 1) (JCommit q) (g_soup s2)).
+         In (propmsg q) (g_soup s2) /\
+         uniq_prop P (V + 1) (JCommit q) (Some (pay (n + 1))) (g_soup s2)) /\
+    (hon L' = false ->
+       forall m p' j' mv', In m (g_soup s2) -> m_msg m = MProposal p' j' ->
+         justification_view (E := unit) true j' = Ok mv' -> vnum mv' = V + 1 ->
+         justification_verify (p_g P) (p_e P) (p_C P) j' = Ok tt -> False).
   Proof.
-    cbv zeta. rewrite two_rounds. destruct after_roundB as [[HN HPP] HX].
+    cbv zeta. rewrite two_rounds. destruct after_roundB4 as [[HN HPP] HX].
     pose proof HN as ((Hrt & _ & _) & _ & Hmsg).
-    split; [exact Hrt|]. split; [exact Hmsg|]. split.
-    - intros k Hk. destruct (HX k Hk) as [(A & B & C & D & _) _]. unfold up, hview. repeat split; auto. lia.
-    - intros HL. destruct (HX L' HL) as [(A & B & C & D & q0 & E1 & E2) HLq].
+    split; [exact Hrt|]. split; [exact Hmsg|]. split; [|split].
+    - intros k Hk. destruct (HX k Hk) as [[(A & B & C & D & _) _] HQ]. unfold up, hview. repeat split; auto. lia.
+    - intros HL. destruct (HX L' HL) as [[(A & B & C & D & q0 & E1 & E2) HLq] _].
       destruct (HLq eq_refl) as (q & Hq & Hin). rewrite E1 in Hq. inversion Hq; subst q0.
       destruct (notify_good sB L' q HN HL E1) as [Hqv Hqn]. rewrite E2 in Hqn. cbn [cprop hnum cview] in Hqn. rewrite Hmv in Hqn.
       exists q. split; [exact E2|]. split; [apply justification_verify_iff; exact Hqv|].
@@ -985,6 +1147,8 @@ Section CommitRounds.
       intros m p' j' mv' Hin' Em Ek Esg Ejv EV Ever.
       destruct (HPP m p' j' mv' Hin' Em Ejv EV Ever) as (_ & _ & B3 & q1 & B4 & B5).
       rewrite Ek, E1 in B5. inversion B5; subst q1. auto.
+    - intros HL m p' j' mv' Hin Em Ejv EV Ever.
+      destruct (HPP m p' j' mv' Hin Em Ejv EV Ever) as (B1 & B2 & _). rewrite B2 in B1. congruence.
   Qed.
 
   Theorem commit_two_rounds : forall k, hon k = true ->
@@ -1019,7 +1183,7 @@ Section Chain.
       justification_verify (p_g P) (p_e P) (p_C P) j = Ok tt /\
       get_implied_block (E := unit) true (p_C P) (p_first P) j = Ok (n, None) /\
       In {| m_key := leader V; m_sig_ok := true; m_msg := MProposal (Some (pay n)) j |} (g_soup s) /\
-      uniq_prop P pay V n j (g_soup s).
+      uniq_prop P V j (Some (pay n)) (g_soup s).
 
   Lemma sync_rounds_add a : forall b s,
     sync_rounds P pay fetch (a + b) s = sync_rounds P pay fetch b (sync_rounds P pay fetch a s).
@@ -1038,9 +1202,12 @@ Section Chain.
     intros HBs. induction r as [|r IH]; intros s V n Hr Hfn HV Hh1 Hh2 Hsb Hlock Hpend Hhon; cbv zeta.
     - cbn [Nat.mul sync_rounds]. rewrite !Z.add_0_r. split; [exact Hr|]. split; [exact Hsb|]. split; [exact Hlock|]. intros H; lia.
     - destruct (Hpend ltac:(lia)) as (j & mv & Hjv & Hmv & Hjver & Himp & Hin & Huq).
-      pose proof (commit_two_rounds_post P HP pay fetch Henv V n j mv Hjv Hmv Hjver Himp Hfn HV s Hr Bs
-                    ltac:(lia) HBs ltac:(lia) Hsb Hlock Hin Huq) as Hpost. cbv zeta in Hpost.
-      destruct Hpost as (Hr2 & Hsb2 & Hlock2 & Hnext).
+      assert (Hkind : (@None Z = None /\ Some (pay n) = Some (pay n) /\ p_pok P n (pay n) = true /\ p_psize P (pay n) <= p_maxpay P) \/
+                      (@None Z = Some (pay n) /\ Some (pay n) = None)).
+      { left. destruct Henv as (Hpok & Hsz & _). auto. }
+      pose proof (commit_two_rounds_post P HP pay fetch Henv V n j mv (Some (pay n)) (pay n) None Hjv Hmv Hjver Himp Hkind Hfn HV s Hr Bs
+                    ltac:(lia) HBs ltac:(lia) Hsb Hlock Hin Huq (or_introl eq_refl) (fun H => False_ind _ (H eq_refl))) as Hpost.
+      cbv zeta in Hpost. destruct Hpost as (Hr2 & Hsb2 & Hlock2 & Hnext & _).
       replace (2 * S r)%nat with (2 + 2 * r)%nat by lia. rewrite sync_rounds_add.
       set (s2 := sync_rounds P pay fetch 2 s) in *.
       assert (Hpend2 : hon (leader (V + 1)) = true -> pending s2 (V + 1) (n + 1)).
